@@ -17,10 +17,15 @@ import (
 	"sync"
 
 	"github.com/gauss-project/aurorafs/pkg/boson"
+	"github.com/gauss-project/aurorafs/pkg/encryption"
 	encstore "github.com/gauss-project/aurorafs/pkg/encryption/store"
 	"github.com/gauss-project/aurorafs/pkg/file/loadsave"
 	"github.com/gauss-project/aurorafs/pkg/file/pipeline"
+	"github.com/gauss-project/aurorafs/pkg/file/pipeline/bmt"
 	"github.com/gauss-project/aurorafs/pkg/file/pipeline/builder"
+	encpipe "github.com/gauss-project/aurorafs/pkg/file/pipeline/encryption"
+	"github.com/gauss-project/aurorafs/pkg/file/pipeline/hashtrie"
+	pstore "github.com/gauss-project/aurorafs/pkg/file/pipeline/store"
 	"github.com/gauss-project/aurorafs/pkg/manifest"
 	"github.com/gauss-project/aurorafs/pkg/pinning"
 	statemock "github.com/gauss-project/aurorafs/pkg/statestore/mock"
@@ -198,6 +203,13 @@ func digestSeq(items [][]byte) string {
 
 // ---------------------------------------------------------------- ground truth (model-free): follow references
 
+// gnode: what the ground-truth walk saw behind one reference (kept so that leafList need not fetch and
+// decrypt the chunk again)
+type gnode struct {
+	leaf bool
+	kids []byte // payload of an intermediate chunk (decrypted)
+}
+
 type gchunk struct {
 	addr    []byte
 	span    uint64
@@ -207,6 +219,9 @@ type gchunk struct {
 // walkTree follows the references below ref (a chunk is intermediate iff its span exceeds its payload length).
 // It returns the visited chunks (each address once) and, when collect is set, the joined content.
 func (rn *runner) walkTree(ref []byte, seen map[string]bool, out *[]gchunk, collect bool, content *[]byte) error {
+	if !collect && len(ref) >= 32 && seen[string(ref[:32])] {
+		return nil // already visited (periodic content / repeated leaf references): nothing new below it
+	}
 	g := encstore.New(rn.s)
 	ch, err := g.Get(rn.ctx, storage.ModeGetLookup, boson.NewAddress(ref))
 	if err != nil {
@@ -219,6 +234,11 @@ func (rn *runner) walkTree(ref []byte, seen map[string]bool, out *[]gchunk, coll
 	span := binary.LittleEndian.Uint64(d[:8])
 	payload := d[8:]
 	k := string(ch.Address().Bytes())
+	if span <= uint64(len(payload)) {
+		rn.gt[string(ref)] = gnode{leaf: true}
+	} else {
+		rn.gt[string(ref)] = gnode{kids: payload}
+	}
 	first := !seen[k]
 	if first {
 		seen[k] = true
@@ -240,6 +260,66 @@ func (rn *runner) walkTree(ref []byte, seen map[string]bool, out *[]gchunk, coll
 		}
 	}
 	return nil
+}
+
+// leafList: addresses of the data chunks below ref, left to right, with repeats (ground truth for the
+// data-chunk list; a chunk is a data chunk iff its span does not exceed its payload length — no span
+// arithmetic).  memo is keyed by reference, so repeated subtrees cost one visit.
+func (rn *runner) leafList(ref []byte, memo map[string][][]byte) ([][]byte, error) {
+	if l, ok := memo[string(ref)]; ok {
+		return l, nil
+	}
+	g, ok := rn.gt[string(ref)]
+	if !ok {
+		ch, err := encstore.New(rn.s).Get(rn.ctx, storage.ModeGetLookup, boson.NewAddress(ref))
+		if err != nil {
+			return nil, err
+		}
+		d := ch.Data()
+		if len(d) < 8 {
+			return nil, fmt.Errorf("short chunk")
+		}
+		if binary.LittleEndian.Uint64(d[:8]) <= uint64(len(d)-8) {
+			g = gnode{leaf: true}
+		} else {
+			g = gnode{kids: d[8:]}
+		}
+		rn.gt[string(ref)] = g
+	}
+	if len(ref) < 32 {
+		return nil, fmt.Errorf("short reference")
+	}
+	var l [][]byte
+	if g.leaf {
+		l = [][]byte{append([]byte(nil), ref[:32]...)}
+	} else {
+		payload := g.kids
+		rl := len(ref)
+		for c := 0; c+rl <= len(payload); c += rl {
+			sub, err := rn.leafList(payload[c:c+rl], memo)
+			if err != nil {
+				return nil, err
+			}
+			l = append(l, sub...)
+		}
+	}
+	memo[string(ref)] = l
+	return l, nil
+}
+
+// expectFile records the ground truth of one file of the object: its data-chunk list (by digest) and,
+// for a multi-chunk file, its root address (which must never be listed as a data chunk).
+func (rn *runner) expectFile(ctx *core.Ctx, o *obj, ref []byte, memo map[string][][]byte) [][]byte {
+	l, err := rn.leafList(ref, memo)
+	if err != nil {
+		ctx.Fail("ground-walk", "cannot list the data chunks below %x: %v", ref, err)
+		return nil
+	}
+	o.expect[digestSeq(l)] = true
+	if len(l) > 1 || (len(l) == 1 && !bytes.Equal(l[0], ref[:32])) {
+		o.multiRoots[string(ref[:32])] = true
+	}
+	return l
 }
 
 // own parser of a mantaray 0.2 node blob (independent of the library's UnmarshalBinary)
@@ -299,6 +379,14 @@ type obj struct {
 	written map[string]bool
 	dir     bool
 	multi   bool
+	// ground truth for GetChunkHashes: digests of the data-chunk list of every file of the object,
+	// and the root addresses of its multi-chunk files
+	expect     map[string]bool
+	multiRoots map[string]bool
+}
+
+func newObj() *obj {
+	return &obj{written: map[string]bool{}, expect: map[string]bool{}, multiRoots: map[string]bool{}}
 }
 
 type runner struct {
@@ -306,11 +394,12 @@ type runner struct {
 	s    *memStore
 	objs map[string]*obj
 	tr   traversal.Traverser
+	gt   map[string]gnode // ground-truth walk cache: reference -> leaf / children
 }
 
 func (prop) New() core.Runner {
 	s := newStore()
-	return &runner{ctx: context.Background(), s: s, objs: map[string]*obj{}, tr: traversal.New(s)}
+	return &runner{ctx: context.Background(), s: s, objs: map[string]*obj{}, tr: traversal.New(s), gt: map[string]gnode{}}
 }
 func (*runner) Close() {}
 
@@ -360,7 +449,8 @@ func (rn *runner) Step(ctx *core.Ctx, op []string) string {
 			ctx.Fail("upload-error", "upload failed: %v", err)
 			return "err"
 		}
-		o := &obj{ref: ref, written: map[string]bool{}, multi: n > C}
+		o := newObj()
+		o.ref, o.multi = ref, n > C
 		for _, k := range rn.s.log {
 			o.written[k] = true
 		}
@@ -374,10 +464,13 @@ func (rn *runner) Step(ctx *core.Ctx, op []string) string {
 					break
 				}
 			}
+			rn.expectFile(ctx, o, ref, map[string][][]byte{})
 		}
 		return fmt.Sprintf("ok %d", len(ref))
 	case len(op) == 5 && op[0] == "dir":
 		return rn.dir(ctx, op)
+	case len(op) == 6 && op[0] == "trie":
+		return rn.trie(ctx, op)
 	case len(op) == 2 && op[0] == "travref":
 		b, err := core.UnHex(op[1])
 		if err != nil {
@@ -464,6 +557,7 @@ func (rn *runner) Step(ctx *core.Ctx, op []string) string {
 			}
 		}
 		rn.checkSubset(ctx, "data", all, o)
+		rn.checkDataLists(ctx, hs, o)
 		// data chunks and pyramid together must cover everything written
 		py, err := rn.tr.GetPyramid(rn.ctx, addr)
 		if err == nil {
@@ -492,6 +586,18 @@ func (rn *runner) Step(ctx *core.Ctx, op []string) string {
 		}
 		return fmt.Sprintf("ok pinned=%d missing=%d", len(rn.s.pins), rn.s.miss)
 	}
+}
+
+func digits(s string) bool {
+	if s == "" || len(s) > 18 {
+		return false
+	}
+	for _, c := range s {
+		if c < '0' || c > '9' {
+			return false
+		}
+	}
+	return true
 }
 
 func min(a, b int) int {
@@ -531,6 +637,32 @@ func (rn *runner) checkCover(ctx *core.Ctx, clause string, lists [][][]byte, o *
 	}
 }
 
+// checkDataLists: every data-chunk list GetChunkHashes returns is, in order and with repeats, the list of
+// data chunks of one file of the object (ground truth: leafList); the root of a multi-chunk file is
+// never listed as one of its data chunks.
+func (rn *runner) checkDataLists(ctx *core.Ctx, hs [][][]byte, o *obj) {
+	if len(o.expect) == 0 {
+		return // ground truth unavailable (already reported as ground-walk)
+	}
+	if !o.dir && len(hs) != 1 {
+		ctx.Fail("data-list-count", "GetChunkHashes of a file reference returned %d data-chunk lists", len(hs))
+		return
+	}
+	for i, l := range hs {
+		if o.expect[digestSeq(l)] {
+			continue
+		}
+		for j, a := range l {
+			if o.multiRoots[string(a)] {
+				ctx.Fail("data-root-listed", "data-chunk list %d lists %x at position %d of %d: that is the root (an intermediate chunk) of a multi-chunk file", i, a, j, len(l))
+				return
+			}
+		}
+		ctx.Fail("data-list-order", "data-chunk list %d (%d addresses) is not the left-to-right list of data chunks of any file of this object", i, len(l))
+		return
+	}
+}
+
 // dir <id> <enc> <root 0|1> <pathhex=src,pathhex=src,...>
 func (rn *runner) dir(ctx *core.Ctx, op []string) string {
 	enc := op[2] == "1"
@@ -563,7 +695,8 @@ func (rn *runner) dir(ctx *core.Ctx, op []string) string {
 	if err != nil {
 		return "err"
 	}
-	o := &obj{written: map[string]bool{}, dir: true, multi: len(ents) > 1}
+	o := newObj()
+	o.dir, o.multi = true, len(ents) > 1
 	fileChunks := map[string][]string{} // path -> chunks written for the file finally mapped there
 	for i, e := range ents {
 		r, n, _ := srcReader(e.src)
@@ -604,8 +737,121 @@ func (rn *runner) dir(ctx *core.Ctx, op []string) string {
 	}
 	o.ref = root.Bytes()
 	rn.objs[op[1]] = o
+	rn.annotateManifest(ctx, o)
+	return fmt.Sprintf("ok %d", len(o.ref))
+}
+
+// trie <id> <enc> <nfull> <tail> <seed>: the chunk tree of a file of nfull identical full chunks followed by
+// one chunk of `tail` bytes (tail = 0: none), built the cheap way at the real constants: every distinct
+// leaf goes ONCE through the production short pipeline ([encrypt →] bmt → store, as builder.go assembles
+// it) and its reference is then written nfull times to the production hashtrie writer — exactly the
+// writes the full pipeline makes for such a file, without pushing gigabytes through feeder and BMT.
+// The file is published as the only entry ("largefile") of a stored manifest, so that Traverse /
+// GetPyramid / GetChunkHashes do not first read the whole file into memory to try it as a manifest.
+// nfull = k*Branches, tail > 0 gives the carried-up shape: the lone last chunk is lifted into the root.
+func (rn *runner) trie(ctx *core.Ctx, op []string) string {
+	enc := op[2] == "1"
+	nfull, e1 := strconv.Atoi(op[3])
+	tail, e2 := strconv.Atoi(op[4])
+	seed, e3 := strconv.ParseUint(op[5], 10, 32)
+	if (op[2] != "0" && op[2] != "1") || !digits(op[3]) || !digits(op[4]) || !digits(op[5]) || e1 != nil || e2 != nil || e3 != nil || nfull < 0 || nfull > 40000 || tail < 0 || tail > C || (nfull == 0 && tail == 0) {
+		return "bad-op"
+	}
+	mode := storage.ModePutUpload
+	refLen, branching := boson.HashSize, boson.Branches
+	short := func() pipeline.ChainWriter {
+		return bmt.NewBmtWriter(pstore.NewStoreWriter(rn.ctx, rn.s, mode, nil))
+	}
+	if enc {
+		refLen, branching = boson.HashSize+encryption.KeyLength, boson.Branches/2
+		short = func() pipeline.ChainWriter {
+			return encpipe.NewEncryptionWriter(encryption.NewChunkEncrypter(), bmt.NewBmtWriter(pstore.NewStoreWriter(rn.ctx, rn.s, mode, nil)))
+		}
+	}
+	rn.s.log = nil
+	tw := hashtrie.NewHashTrieWriter(C, branching, refLen, short)
+	var leaves [][]byte // the leaf addresses in file order (what the harness itself fed to the trie writer)
+	writeLeaf := func(payload []byte, times int) error {
+		data := make([]byte, 8+len(payload))
+		binary.LittleEndian.PutUint64(data[:8], uint64(len(payload)))
+		copy(data[8:], payload)
+		span := append([]byte(nil), data[:8]...)
+		args := pipeline.PipeWriteArgs{Data: data, Span: span}
+		if err := short().ChainWrite(&args); err != nil {
+			return err
+		}
+		ref, key := append([]byte(nil), args.Ref...), append([]byte(nil), args.Key...)
+		for i := 0; i < times; i++ {
+			if err := tw.ChainWrite(&pipeline.PipeWriteArgs{Ref: ref, Key: key, Span: span}); err != nil {
+				return err
+			}
+			leaves = append(leaves, ref)
+		}
+		return nil
+	}
+	var err error
+	if nfull > 0 {
+		err = writeLeaf(core.GenBytes(seed, C, 0), nfull)
+	}
+	if err == nil && tail > 0 {
+		err = writeLeaf(core.GenBytes(seed+7919, tail, 0), 1)
+	}
+	var sum []byte
+	if err == nil {
+		sum, err = tw.Sum()
+	}
+	if err != nil {
+		ctx.Fail("upload-error", "hashtrie writer failed: %v", err)
+		return "err"
+	}
+	fileRef := append([]byte(nil), sum...)
+	o := newObj()
+	o.dir, o.multi = true, len(leaves) > 1
+	ls := loadsave.New(rn.s, func() pipeline.Interface {
+		return builder.NewPipelineBuilder(rn.ctx, rn.s, mode, enc)
+	})
+	m, err := manifest.NewDefaultManifest(ls, enc)
+	if err != nil {
+		return "err"
+	}
+	meta := map[string]string{manifest.EntryMetadataFilenameKey: "largefile", manifest.EntryMetadataContentTypeKey: "application/octet-stream"}
+	if err := m.Add(rn.ctx, "largefile", manifest.NewEntry(boson.NewAddress(fileRef), meta)); err != nil {
+		ctx.Fail("manifest-add-error", "Add failed: %v", err)
+		return "err"
+	}
+	root, err := m.Store(rn.ctx)
+	if err != nil {
+		ctx.Fail("manifest-store-error", "Store failed: %v", err)
+		return "err"
+	}
+	for _, k := range rn.s.log {
+		o.written[k] = true
+	}
+	o.ref = root.Bytes()
+	rn.objs[op[1]] = o
+	rn.annotateManifest(ctx, o)
+	// the harness knows the leaf sequence it wrote: the ground-truth walk must find exactly that, and it
+	// is the one data-chunk list GetChunkHashes may return
+	want := make([][]byte, len(leaves))
+	for i, l := range leaves {
+		want[i] = l[:32]
+	}
+	if d := digestSeq(want); !o.expect[d] || len(o.expect) != 1 {
+		ctx.Fail("ground-walk", "the stored tree below %x does not list the %d leaf references written to the trie writer in order", fileRef[:32], len(leaves))
+		o.expect = map[string]bool{d: true}
+	}
+	if len(leaves) > 1 {
+		o.multiRoots[string(fileRef[:32])] = true
+	}
+	return fmt.Sprintf("ok %d", len(o.ref))
+}
+
+// annotateManifest passes the ground truth of a stored manifest to the model: every chunk below the
+// manifest reference and below every entry, and every node parsed by the independent parser.
+func (rn *runner) annotateManifest(ctx *core.Ctx, o *obj) {
 	ctx.Annotate("ref:" + hx(o.ref))
 	seen := map[string]bool{}
+	memo := map[string][][]byte{}
 	zero := make([]byte, 32)
 	var parse func(ref []byte, typ byte, depth int) bool
 	parse = func(ref []byte, typ byte, depth int) bool {
@@ -634,6 +880,7 @@ func (rn *runner) dir(ctx *core.Ctx, op []string) string {
 			if _, ok := rn.chunkTokens(ctx, entry, seen, false); !ok {
 				return false
 			}
+			rn.expectFile(ctx, o, entry, memo)
 		}
 		for _, f := range forks {
 			if !parse(f.ref, f.typ, depth+1) {
@@ -650,7 +897,6 @@ func (rn *runner) dir(ctx *core.Ctx, op []string) string {
 			}
 		}
 	}
-	return fmt.Sprintf("ok %d", len(o.ref))
 }
 
 // ---------------------------------------------------------------- generator
@@ -735,8 +981,12 @@ func obsOps(r *core.Rand, id string) []string {
 
 func (prop) Gen(r *core.Rand, tier string) []core.Case {
 	n, budget := 28, 50
+	// every ENCRYPTED chunk is padded to a full 256 KiB chunk, however small the file or manifest node: each
+	// costs an encryption + full BMT on upload and a decryption per read (~0.2 s over the ops of a case).
+	// encBudget (in chunks) bounds that work in the quick tier; when it is spent, objects are drawn plain.
+	encBudget := 200
 	if tier == "thorough" {
-		n, budget = 200, 700
+		n, budget, encBudget = 200, 700, 1<<30
 	}
 	var cs []core.Case
 	cs = append(cs,
@@ -746,7 +996,17 @@ func (prop) Gen(r *core.Rand, tier string) []core.Case {
 		core.Case{ID: "fix-dir", NT: true, Ops: []string{fmt.Sprintf("dir d 0 1 %s=g:1:10,%s=g:2:20,%s=p:3:%d:997,%s=g:4:5", core.Hex([]byte("a")), core.Hex([]byte("ab")), core.Hex([]byte("img/x.png")), C+1, core.Hex([]byte("img/y.png"))),
 			"traverse d", "pyramid d", "hashes d", "pin d"}},
 		core.Case{ID: "fix-dir-enc", NT: true, Ops: []string{fmt.Sprintf("dir d 1 0 %s=g:1:10,%s=p:3:%d:997", core.Hex([]byte("a/b")), core.Hex([]byte("a/c")), C+1), "traverse d", "pyramid d", "hashes d", "pin d"}},
-		core.Case{ID: "fix-malformed", NT: false, Ops: []string{"traverse nope", "travref " + strings.Repeat("ab", 32), "travref " + strings.Repeat("ab", 64), "travref abcd", "travref -", "file x 2 h:00", "dir d 0 0 zz"}},
+		// carried-up lone reference at the real constants (Branches*k+1 chunks: hashtrie lifts the single
+		// left-over reference into the node above, so the root mixes intermediate and data references)
+		core.Case{ID: "fix-carried-lone-chunk-plain", NT: true, Ops: []string{fmt.Sprintf("trie f 0 %d 100 3", boson.Branches), "traverse f", "pyramid f", "hashes f", "pin f"}},
+		core.Case{ID: "fix-carried-lone-chunk-enc", NT: true, Ops: []string{fmt.Sprintf("trie f 1 %d 100 4", boson.Branches/2), "hashes f", "traverse f", "pyramid f", "pin f"}},
+		core.Case{ID: "fix-carried-lone-chunk-2k", NT: true, Ops: []string{fmt.Sprintf("trie f 0 %d %d 5", 2*boson.Branches, C), "hashes f", "pyramid f", "traverse f", "pin f",
+			fmt.Sprintf("trie g 1 %d 1 5", 3*boson.Branches/2), "hashes g", "traverse g"}},
+		core.Case{ID: "fix-carried-lone-chunk-same", NT: true, Ops: []string{fmt.Sprintf("trie f 0 %d 0 6", boson.Branches+1), "hashes f", "traverse f", "pyramid f",
+			fmt.Sprintf("trie g 1 %d 0 6", boson.Branches+1), "hashes g", "pyramid g"}},
+		core.Case{ID: "fix-trie-no-carry", NT: true, Ops: []string{fmt.Sprintf("trie f 0 %d 77 7", boson.Branches-1), "hashes f", "traverse f", "pyramid f", "pin f",
+			fmt.Sprintf("trie g 0 %d 5 7", boson.Branches+1), "hashes g", "traverse g", "pyramid g", "trie h 1 3 0 7", "hashes h", "traverse h", "trie i 0 1 0 7", "hashes i", "pyramid i", "traverse i"}},
+		core.Case{ID: "fix-malformed", NT: false, Ops: []string{"traverse nope", "trie t 0 0 0 1", "trie t 2 1 0 1", "trie t 0 +1 0 1", "trie t 0 1 262145 1", "trie t 0 40001 0 1", "trie t 0 1 0 4294967296", "hashes t", "travref " + strings.Repeat("ab", 32), "travref " + strings.Repeat("ab", 64), "travref abcd", "travref -", "file x 2 h:00", "dir d 0 0 zz"}},
 	)
 	if tier == "thorough" {
 		// three-level trees (the only ones with intermediate chunks below the root): 1 GiB encrypted;
@@ -762,9 +1022,28 @@ func (prop) Gen(r *core.Rand, tier string) []core.Case {
 		for k := 0; k < nobj; k++ {
 			id := fmt.Sprintf("o%d", k)
 			enc := r.Intn(2)
+			if encBudget <= 0 {
+				enc = 0
+			}
+			if budget >= 8 && r.Chance(10) {
+				encBudget -= 8 * enc
+				// large tree around the carry-over boundaries: Branches*k + {-1, 0, +1} full chunks, optional tail chunk
+				budget -= 8
+				b := boson.Branches
+				if enc == 1 {
+					b /= 2
+				}
+				nfull := b*r.Range(1, 2) + r.Pick([]int{0, 0, 0, -1, 1})
+				tail := r.Pick([]int{0, 1, 100, C - 1, C, r.Range(1, C)})
+				c.Ops = append(c.Ops, fmt.Sprintf("trie %s %d %d %d %d", id, enc, nfull, tail, r.Intn(1000)))
+				c.NT = true
+				c.Ops = append(c.Ops, obsOps(r, id)...)
+				continue
+			}
 			if r.Chance(55) {
 				sz := fileSize(r, true, &budget)
 				c.Ops = append(c.Ops, fmt.Sprintf("file %s %d %s", id, enc, src(r, sz)))
+				encBudget -= enc * ((sz+C-1)/C + 1)
 				if sz > C {
 					c.NT = true
 				}
@@ -792,6 +1071,7 @@ func (prop) Gen(r *core.Rand, tier string) []core.Case {
 					if r.Chance(10) && j > 0 { // identical content under two paths
 						sz = 77
 					}
+					encBudget -= enc * ((sz+C-1)/C + 2) // the file's chunks + about one manifest node per entry
 					if sz == 77 {
 						ents = append(ents, core.Hex([]byte(p))+"=g:7:77")
 					} else {
